@@ -257,6 +257,37 @@ def judge(case):
     return _judge(sc) if "X" in sc and case.get("kind") != "modeltrain" else None
 
 
+def _judge_dtype(rng, tag):
+    """a stateful node with a non-default dtype (its state is cast at every step): whole run == chunks == successive calls, outputs and final state"""
+    import reservoirpy as rpy
+    rpy.verbosity(0)
+    from reservoirpy.node import Node
+
+    def init(node, x=None, **kw):
+        node.set_input_dim(x.shape[1]); node.set_output_dim(x.shape[1])
+
+    def fwd(node, x):                           # a leaky accumulator: depends on the (cast) previous state
+        return 0.5 * node.state() + 0.75 * x + 0.3
+    out = []
+    for dt in (np.int64, np.float32):
+        sc = {"tag": tag, "kind": "dtype", "dtype": np.dtype(dt).name}
+        X = scen.fl(scengen.rows(rng, 6, 2)) * 5.0
+        try:
+            nodes = [Node(forward=fwd, initializer=init, dtype=dt, name="c7dt%s%s_%d" % (tag, sc["dtype"], k)) for k in range(3)]
+            whole = np.asarray(nodes[0].run(X), dtype=float)
+            chunks = np.vstack([np.asarray(nodes[1].run(X[:2]), dtype=float), np.asarray(nodes[1].run(X[2:3]), dtype=float), np.asarray(nodes[1].run(X[3:]), dtype=float)])
+            calls = np.vstack([np.asarray(nodes[2].call(X[t:t + 1]), dtype=float) for t in range(len(X))])
+            finals = [np.asarray(n.state(), dtype=float) for n in nodes]
+            dts = [np.asarray(n.state()).dtype for n in nodes]
+        except Exception as e:  # noqa: BLE001
+            out.append(_viol("dtype:exception", "run / chunks / calls of a dtype=%s node raise %r" % (sc["dtype"], e), sc)); continue
+        if not (np.allclose(whole, chunks, rtol=0, atol=1e-12) and np.allclose(whole, calls, rtol=0, atol=1e-12)
+                and np.allclose(finals[0], finals[1], rtol=0, atol=1e-12) and np.allclose(finals[0], finals[2], rtol=0, atol=1e-12) and len(set(map(str, dts))) == 1):
+            out.append(_viol("dtype:chunked-run-differs", "a dtype=%s node: the whole run, the run in three chunks and successive calls do not give the same outputs / "
+                             "final state (dtypes of the final states: %s)" % (sc["dtype"], [str(d) for d in dts]), sc, whole.tolist(), [chunks.tolist(), calls.tolist()]))
+    return out
+
+
 def oracle(ctx, scale=1):
     rng = ctx.rng("oracle")
     n = ctx.n(60, 600) * scale
@@ -268,7 +299,8 @@ def oracle(ctx, scale=1):
     ns = ctx.n(2, 15)
     for i in range(ns):
         out += _judge_special(rng, "%d_%d" % (ctx.seed, i))
-    return {"evaluations": n + ns, "violations": out,
+    out += _judge_dtype(rng, "%d" % ctx.seed)
+    return {"evaluations": n + ns + 2, "violations": out,
             "rule": "whole run vs chunked runs/calls on two copies of the same real objects (outputs, final states of all nodes, a continuation run); "
                     "ESN node; RLS/LMS nodes and a reservoir>>RLS model trained in chunks"}
 
@@ -278,7 +310,9 @@ def replay(payload):
     if mt:                                     # a disagreeing Model.train history stored by the correspondence
         return trainmodel.replay(mt[0])
     sc = payload["scenario"]
-    if "X" in sc:
+    if sc.get("kind") == "dtype":
+        v = _judge_dtype(core.random.Random(0), "rp")
+    elif "X" in sc:
         v = _judge(sc)
     else:
         v = _judge_special(core.random.Random(str(sc.get("tag"))), "rp%s" % sc.get("tag"))
